@@ -32,11 +32,28 @@ thread_local! {
 static SITE_CACHE: Mutex<BTreeMap<String, (String, String)>> = Mutex::new(BTreeMap::new());
 
 pub fn normalise_message(msg: &str) -> String {
+    // Numbers become '#', quoted text becomes '_' (it is usually data from the
+    // input), so that one call site gives one key.
     let mut out = String::with_capacity(msg.len().min(160));
     let mut in_digits = false;
+    let mut quote: Option<char> = None;
     for ch in msg.chars() {
         if out.len() >= 140 {
             break;
+        }
+        if let Some(q) = quote {
+            if ch == q {
+                quote = None;
+                out.push('_');
+                out.push(q);
+            }
+            continue;
+        }
+        if ch == '"' {
+            quote = Some(ch);
+            out.push(ch);
+            in_digits = false;
+            continue;
         }
         if ch.is_ascii_digit() {
             if !in_digits {
